@@ -940,7 +940,9 @@ func (e *Engine) findIndicesTeddyAt(haystack []byte, at int) (int, int, bool) {
 
 // findIndicesDigitPrefilter returns indices using digit prefilter - zero alloc.
 func (e *Engine) findIndicesDigitPrefilter(haystack []byte) (int, int, bool) {
-	if e.digitPrefilter == nil {
+	// Longest (POSIX) mode: the anchored DFA below ends at the leftmost-first
+	// match; the NFA path honors the mode.
+	if e.digitPrefilter == nil || e.longest {
 		return e.findIndicesNFA(haystack)
 	}
 
@@ -989,7 +991,7 @@ func (e *Engine) findIndicesDigitPrefilter(haystack []byte) (int, int, bool) {
 
 // findIndicesDigitPrefilterAt returns indices starting at position 'at' - zero alloc.
 func (e *Engine) findIndicesDigitPrefilterAt(haystack []byte, at int) (int, int, bool) {
-	if e.digitPrefilter == nil || at >= len(haystack) {
+	if e.digitPrefilter == nil || e.longest || at >= len(haystack) {
 		return e.findIndicesNFAAt(haystack, at)
 	}
 
@@ -1036,7 +1038,7 @@ func (e *Engine) findIndicesDigitPrefilterAt(haystack []byte, at int) (int, int,
 // findIndicesDigitPrefilterAtWithState searches using digit prefilter, reusing provided state.
 // Eliminates per-match sync.Pool overhead when called from FindAll/Count loops.
 func (e *Engine) findIndicesDigitPrefilterAtWithState(haystack []byte, at int, state *SearchState) (int, int, bool) {
-	if e.digitPrefilter == nil || at >= len(haystack) {
+	if e.digitPrefilter == nil || e.longest || at >= len(haystack) {
 		return e.findIndicesNFAAtWithState(haystack, at, state)
 	}
 
